@@ -637,9 +637,22 @@ func (t *Term) String() string {
 
 type printer struct {
 	shared map[int]bool // term ids that are printed by name (tN)
+	limit  int          // >0: stop descending once this many characters have been written (debug output)
+}
+
+// StringN prints at most about n characters of the term (terms are DAGs: the full text can be exponentially long).
+func (t *Term) StringN(n int) string {
+	var sb strings.Builder
+	p := &printer{shared: map[int]bool{}, limit: n}
+	p.write(&sb, t)
+	return sb.String()
 }
 
 func (p *printer) write(sb *strings.Builder, t *Term) {
+	if p.limit > 0 && sb.Len() > p.limit {
+		sb.WriteString("…")
+		return
+	}
 	if p.shared[t.id] {
 		fmt.Fprintf(sb, "t%d", t.id)
 		return
